@@ -90,7 +90,9 @@ class IntervalGrader(SingleListGrader):
         """
         # Step 1: Provide the default subgrader
         use_config = config if config else kwargs
-        if use_config.get('subgrader') is None:
+        if isinstance(use_config, dict) and use_config.get('subgrader') is None:
+            # Work on a copy, so that the author's dictionary is left untouched
+            use_config = dict(use_config)
             use_config['subgrader'] = NumericalGrader(tolerance=1e-13, allow_inf=True)
 
         # Step 2: Validate the configuration using SingleListGrader routines
